@@ -555,7 +555,11 @@ class Contract:
 
     def hooks_for(self, kind, name):
         h = self.hooks()
-        return h.get((kind, name), []) + h.get((kind, None), [])
+        out = h.get((kind, name), []) + h.get((kind, None), [])
+        short = str(name).split(":")[-1].split(".")[-1]
+        if short != name:
+            out = out + h.get((kind, short), [])
+        return out
 
     def callee_mode(self, key):
         k = key.replace("py7zr.", "", 1)
